@@ -43,8 +43,9 @@ func pointStmt(site string) ast.Stmt {
 }
 
 type fctx struct {
-	name string
-	n    int
+	name      string
+	n         int
+	everyStmt bool
 }
 
 func (c *fctx) site(kind string) string {
@@ -203,6 +204,11 @@ func (c *fctx) stmts(in []ast.Stmt) []ast.Stmt {
 			continue
 		case k != "":
 			out = append(out, pointStmt(c.site(k)))
+		case c.everyStmt:
+			// the shared tables: a yield point before every statement, also inside their (channel-based) lock regions
+			if _, isDecl := s.(*ast.DeclStmt); !isDecl {
+				out = append(out, pointStmt(c.site("stmt")))
+			}
 		}
 		out = append(out, s)
 	}
@@ -344,6 +350,9 @@ func main() {
 				continue
 			}
 			c := &fctx{name: recvName(fd) + fd.Name.Name}
+			if recvName(fd) == "callContainer." && fd.Name.Name != "NewCall" {
+				c.everyStmt = true
+			}
 			fd.Body.List = c.stmts(fd.Body.List)
 		}
 		if len(sites) > before {
